@@ -615,6 +615,8 @@ def _link_nslr(sc, st, add, refmod, store, log, bump):
             if n >= 2:
                 break
             f = next(x for x in sc["funcs"] if x["name"] == h["f"])
+            if any(t not in ("int", "float") for _p, t in f["params"]):
+                continue  # nslr.py converts scalar arguments only
             if any(v < 0 for v in h["args"].values()):
                 continue
             n += 1
@@ -657,6 +659,9 @@ def _dup_step(sc, st, LinearIR, make_loader, host_module, guarded_link, Counting
             return None
         g = sc["globals"][st["gvictim"] % len(sc["globals"])]
         dsrc = f"{g['type']} {g['name']};\n"
+        if g["type"].startswith("G"):
+            k = g["type"][1:]
+            dsrc = f"struct {g['type']} {{ int ga{k}; float gb{k}; }}\n" + dsrc
         what = f"global {g['name']}"
     dsrc += "export function dup_only(int a) -> int {\n  return (a + 1);\n}\n"
     dmod, status, why = _compile_inproc(dsrc)
